@@ -39,6 +39,26 @@ def eval_expected(inputs, name="eval-vt", consts=None, module="Eval_VtParser"):
     return r.lines
 
 
+def minimize_vt(vh, input_bytes, consts=None):
+    """shrink a byte string on which the parser's callbacks differ from the specification"""
+    def failing(cands):
+        exp = eval_expected(cands, name="min-vt", consts=consts)
+        wd = vlib.workdir("min-vt-cases")
+        p = os.path.join(wd, "c.ndjson")
+        vlib.write_lines(p, exp)
+        out = vlib.run_harness(vh, ["vt-replay", p]).stdout
+        bad = set()
+        for l in out.strip().split("\n"):
+            o = json.loads(l)
+            if "mismatch" in o:
+                bad.add(tuple(o["mismatch"]["input"]))
+        return [tuple(c) in bad for c in cands]
+    try:
+        return vlib.ddmin(input_bytes, failing)
+    except vlib.ToolError:
+        return list(input_bytes)
+
+
 def check_table(chk, vh):
     r = vlib.tlc_run("spec/mc/MC_VtTable.tla", "spec/mc/MC_VtTable.cfg", "c02-table", workers=1)
     if not r.ok:
@@ -154,6 +174,13 @@ def check_graph(chk, vh, depth):
         raise vlib.ToolError("vacuous state graph: callback kinds never expected: %s" % sorted(missing))
 
 
+def _one_case(case):
+    wd = vlib.workdir("one-case")
+    p = os.path.join(wd, "c.ndjson")
+    vlib.write_lines(p, [case])
+    return p
+
+
 def split_streams(lines):
     """indices (0-based) of reset lines"""
     return [i for i, l in enumerate(lines) if l.startswith('{"b":256')]
@@ -207,6 +234,16 @@ def check_traces(chk, vh, shards, streams, target, flavor="full", spec="Trace_Vt
         nbytes += summ["bytes"]
         chk.traces += summ["streams"]
         for rj in rejects:
+            if len(chk.violations) < 2 and consts is None and len(rj["input"]) > 6:
+                small = minimize_vt(vh, rj["input"])
+                if len(small) < len(rj["input"]):
+                    e2 = eval_expected([small], name=tag + "-exp2")[0]
+                    got = json.loads(vlib.run_harness(vh, ["vt-replay", _one_case(e2)]).stdout.strip().split("\n")[0])
+                    if "mismatch" in got:
+                        m = got["mismatch"]
+                        chk.violation("minimised: callbacks differ at byte %d of input %s: observed %s, spec expects %s"
+                                      % (m["at"], m["input"], json.dumps(m["observed"])[:200], json.dumps(m["expected"])[:200]),
+                                      {"kind": "vt-string", "input": m["input"], "at": m["at"], "expected": m["expected"], "observed": m["observed"], "minimised_from": len(rj["input"])})
             exp = eval_expected([rj["input"]], name=tag + "-exp", consts=consts)[0]["e"]
             chk.violation("recorded trace (seed %d) rejected by %s at byte %d of a stream of %d bytes: observed %s, spec expects %s"
                           % (seed, spec, rj["at"], len(rj["input"]), json.dumps(rj["observed"]), json.dumps(exp[rj["at"]])),
